@@ -159,6 +159,10 @@ impl Obs {
 pub struct RunOut {
     pub report: simrt::Report,
     pub obs: Obs,
+    /// largest single allocation request during the run
+    pub max_alloc: usize,
+    /// peak of live heap bytes above the level at the start of the run
+    pub peak_live: usize,
 }
 
 struct Shared {
@@ -881,7 +885,9 @@ pub fn run_scenario(
     });
     let sh_root = sh.clone();
     let sc2 = sc.clone();
+    let base = crate::allocmon::begin();
     let report = simrt::run(cfg, move || driver(sc2, sh_root));
+    let (max_alloc, peak_live) = crate::allocmon::end(base);
     // collect client-side logs (outside the world; plain data access)
     {
         let clients = sh.clients.lock().unwrap();
@@ -901,7 +907,12 @@ pub fn run_scenario(
         }
     }
     let obs = sh.obs.lock().unwrap().clone();
-    RunOut { report, obs }
+    RunOut {
+        report,
+        obs,
+        max_alloc,
+        peak_live,
+    }
 }
 
 fn driver(sc: Scenario, sh: Arc<Shared>) {
